@@ -330,12 +330,58 @@ pub fn run(args: &Args) -> i32 {
             }
         }
     };
-    let step: u64 = if thorough { 1 } else { 65_521 };
-    let mut b: u64 = 0;
-    while b <= u32::MAX as u64 {
-        check_f32(b as u32, &mut w, &mut shapes, &mut bad_floats);
-        stats.f32_patterns += 1;
-        b += step;
+    if thorough {
+        // all 2^32 bit patterns, on 16 threads; each keeps its own failures (first 20) and text shapes
+        let parts: Vec<(usize, Vec<(u32, String)>, BTreeMap<String, String>)> = std::thread::scope(|sc| {
+            let hs: Vec<_> = (0..16u64)
+                .map(|k| {
+                    sc.spawn(move || {
+                        let (lo, hi) = (k << 28, ((k + 1) << 28) - 1);
+                        let mut bad = 0usize;
+                        let mut fails: Vec<(u32, String)> = vec![];
+                        let mut shapes: BTreeMap<String, String> = BTreeMap::new();
+                        let mut last_shape = String::new();
+                        for b in lo..=hi {
+                            let bits = b as u32;
+                            let v = f32::from_bits(bits);
+                            let t = match serde_saphyr::to_string(&v) { Ok(t) => t, Err(_) => { bad += 1; continue; } };
+                            let ok = match serde_saphyr::from_str::<f32>(&t) {
+                                Ok(x) => x.to_bits() == bits || (x.is_nan() && v.is_nan()),
+                                Err(_) => false,
+                            };
+                            let sh = float_shape(&t);
+                            if sh != last_shape {
+                                shapes.entry(sh.clone()).or_insert_with(|| t.clone());
+                                last_shape = sh;
+                            }
+                            if !ok {
+                                bad += 1;
+                                if fails.len() < 20 { fails.push((bits, t)); }
+                            }
+                        }
+                        (bad, fails, shapes)
+                    })
+                })
+                .collect();
+            hs.into_iter().map(|h| h.join().expect("f32 worker")).collect()
+        });
+        for (bad, fails, sh) in parts {
+            bad_floats += bad;
+            stats.f32_patterns += 1 << 28;
+            for (k, v) in sh { shapes.entry(k).or_insert(v); }
+            for (bits, t) in fails.into_iter().take(20) {
+                w.put(&Rec { id: format!("f32-{bits:08x}"), kind: "int", s: vec![], pos: "root", opt: "default", y12: false, text: t.clone(), back: vec![], plain: false,
+                             val: format!("{bits:08x}"), backval: serde_saphyr::from_str::<f32>(&t).map(|b| format!("{:08x}", b.to_bits())).unwrap_or_else(|e| format!("ERR {}", classify(&e))) });
+            }
+        }
+    } else {
+        let step: u64 = 65_521;
+        let mut b: u64 = 0;
+        while b <= u32::MAX as u64 {
+            check_f32(b as u32, &mut w, &mut shapes, &mut bad_floats);
+            stats.f32_patterns += 1;
+            b += step;
+        }
     }
     for bits in [0u32, 0x8000_0000, 1, 0x007f_ffff, 0x0080_0000, 0x7f7f_ffff, 0x7f80_0000, 0xff80_0000, 0x7fc0_0000, 0x3f80_0000, 0x3f80_0001, 0x4b00_0000, 0x4b80_0000, 0x5f00_0000] {
         check_f32(bits, &mut w, &mut shapes, &mut bad_floats);
